@@ -804,7 +804,8 @@ class Address(object):
         witness_type = addr_dict['witness_type']
         return Address(hashed_data=public_key_hash_bytes, prefix=prefix, script_type=script_type,
                        witness_type=witness_type, compressed=compressed, encoding=addr_dict['encoding'], depth=depth,
-                       change=change, address_index=address_index, network=network, network_overrides=network_overrides)
+                       change=change, address_index=address_index, network=network, network_overrides=network_overrides,
+                       witver=addr_dict['witver'] or 0)
 
     def __init__(self, data='', hashed_data='', prefix=None, script_type=None,
                  compressed=None, encoding=None, witness_type=None, witver=0, depth=None, change=None,
